@@ -10,6 +10,23 @@ Proof. unfold upd. rewrite Nat.eqb_refl. reflexivity. Qed.
 Lemma upd_other {A} (f : nat -> A) k v x : x <> k -> upd f k v x = f x.
 Proof. unfold upd. intros H. destruct (Nat.eqb_spec x k); congruence. Qed.
 
+Lemma set_nth_length {A} (l : list A) i x : length (set_nth l i x) = length l.
+Proof. revert i; induction l as [|h t IH]; intros [|i]; simpl; auto. Qed.
+Lemma nth_set_same {A} (l : list A) i x d : i < length l -> nth i (set_nth l i x) d = x.
+Proof. revert i; induction l as [|h t IH]; intros [|i] H; simpl in *; try lia; auto. apply IH; lia. Qed.
+Lemma nth_set_other {A} (l : list A) i j x d : i <> j -> nth j (set_nth l i x) d = nth j l d.
+Proof. revert i j; induction l as [|h t IH]; intros [|i] [|j] H; simpl; try congruence; auto. Qed.
+Lemma firstn_set_nth_ge {A} (l : list A) i n x : n <= i -> firstn n (set_nth l i x) = firstn n l.
+Proof.
+  revert i n; induction l as [|h t IH]; intros [|i] [|n] H; simpl; try lia; auto. f_equal. apply IH; lia.
+Qed.
+Lemma firstn_set_nth_lt {A} (l : list A) i n x : i < n -> firstn n (set_nth l i x) = set_nth (firstn n l) i x.
+Proof.
+  revert i n; induction l as [|h t IH]; intros i n H.
+  - destruct n; destruct i; reflexivity.
+  - destruct n as [|n]; [lia|]. destruct i as [|i]; simpl; [reflexivity|]. f_equal. apply IH. lia.
+Qed.
+
 Ltac eq_subst x k := first [subst x | subst k | idtac].
 Ltac simp_upd :=
   repeat match goal with
